@@ -15,6 +15,7 @@ import (
 	statusv1 "github.com/bufbuild/connect-go/internal/gen/connectext/grpc/status/v1"
 	"github.com/bufbuild/connect-go/verifharness/internal/h"
 	"google.golang.org/protobuf/proto"
+	"google.golang.org/protobuf/types/known/wrapperspb"
 )
 
 // jsumOf summarises a JSON payload with encoding/json (independent of protojson).
@@ -199,6 +200,65 @@ func C05(r *h.Run) {
 		r.Sample("handler_response", map[string]any{"in": in, "status": rec.Code, "header": hdr, "trailer": trailer, "body_hex": h.Hex(raw)})
 		r.Case("handler_response", fmt.Sprintf("SpecResp %s %s %s %d %s %s %s %s %s %s", kind, h.CoqStr(reqCT), tag, rec.Code, coqHeaderAll(hdr, ""), coqHeaderAll(trailer, ""), h.CoqBytes(raw), js, h.CoqBytesList(wantMsgs), finalCoq),
 			map[string]any{"in": in, "impl_status": rec.Code, "impl_header": hdr, "impl_trailer": trailer, "impl_body_hex": h.Hex(raw)})
+	}
+
+	// ---- (a') the response Content-Type echoes the request's, bare media types included
+	// (grpc-go and grpc-web peers send "application/grpc" / "application/grpc-web" for protobuf) ----
+	{
+		echoUnary := connect.NewUnaryHandler("/verif.Svc/E", func(_ context.Context, req *connect.Request[wrapperspb.BytesValue]) (*connect.Response[wrapperspb.BytesValue], error) {
+			return connect.NewResponse(&wrapperspb.BytesValue{Value: req.Msg.Value}), nil
+		})
+		echoStream := connect.NewServerStreamHandler("/verif.Svc/E", func(_ context.Context, req *connect.Request[wrapperspb.BytesValue], st *connect.ServerStream[wrapperspb.BytesValue]) error {
+			return st.Send(&wrapperspb.BytesValue{Value: req.Msg.Value})
+		})
+		protoMsg, _ := proto.Marshal(&wrapperspb.BytesValue{Value: []byte("abc")})
+		jsonMsg := []byte(`"YWJj"`)
+		type ctCase struct {
+			ct      string
+			unary   bool // Connect unary (no envelope)
+			payload []byte
+		}
+		cases := []ctCase{
+			{"application/grpc", false, protoMsg}, {"application/grpc+proto", false, protoMsg}, {"application/grpc+json", false, jsonMsg},
+			{"application/grpc-web", false, protoMsg}, {"application/grpc-web+proto", false, protoMsg}, {"application/grpc-web+json", false, jsonMsg},
+			{"application/connect+proto", false, protoMsg}, {"application/connect+json", false, jsonMsg},
+			{"application/proto", true, protoMsg}, {"application/json", true, jsonMsg},
+		}
+		for _, c := range cases {
+			for _, streamHandler := range []bool{false, true} {
+				if c.unary && streamHandler {
+					continue
+				}
+				if !c.unary && !streamHandler && strings.HasPrefix(c.ct, "application/connect+") {
+					continue // the unary handler does not speak the Connect streaming media types
+				}
+				handler := echoUnary
+				if streamHandler {
+					handler = echoStream
+				}
+				body := h.Frame(0, c.payload)
+				if c.unary {
+					body = c.payload
+				}
+				req := httptest.NewRequest(http.MethodPost, "/verif.Svc/E", bytes.NewReader(body))
+				req.Header.Set("Content-Type", c.ct)
+				rec := httptest.NewRecorder()
+				if p := safely(func() { handler.ServeHTTP(rec, req) }); p != nil {
+					r.Fail(h.Failure{Key: "conformance/panic", Family: "content_type_echo", What: fmt.Sprint("panic: ", p), Input: c.ct})
+					continue
+				}
+				in := map[string]any{"request_content_type": c.ct, "stream_handler": streamHandler}
+				r.Eval("content_type_echo", fmt.Sprint(c.ct, streamHandler))
+				r.Sample("content_type_echo", map[string]any{"in": in, "status": rec.Code, "response_content_type": rec.Header().Get("Content-Type")})
+				if rec.Code != 200 {
+					r.Fail(h.Failure{Key: "conformance/content-type-not-served", Family: "content_type_echo", What: fmt.Sprintf("a request with a media type of the protocol was answered with HTTP %d", rec.Code), Input: in})
+					continue
+				}
+				if got := rec.Header().Get("Content-Type"); got != c.ct {
+					r.Fail(h.Failure{Key: "conformance/content-type-echo", Family: "content_type_echo", What: "the response Content-Type does not echo the request's", Input: in, Expected: c.ct, Actual: got})
+				}
+			}
+		}
 	}
 
 	// ---- (b) requests written by real clients ----
